@@ -537,6 +537,8 @@ type replayCase struct {
 	Mode    string      `json:"mode"`
 	Skip    bool        `json:"skip"`
 	Part    string      `json:"part"`
+	Fault   string      `json:"fault,omitempty"`
+	Cut     int         `json:"cut,omitempty"`
 }
 
 func main() {
@@ -592,6 +594,9 @@ func main() {
 	}
 	pending := make([][]pendingViolation, len(specs))
 
+	if only != nil && only.Part == "fault" {
+		specs = nil
+	}
 	lib.Parallel(len(specs), func(i int) {
 		spec := specs[i]
 		violate := func(sig, desc string, rc replayCase) {
@@ -827,6 +832,16 @@ func main() {
 		}
 	}
 
+	var faultCov map[string]int64
+	if only == nil || only.Part == "fault" {
+		faultCov = runFaultFamily(rep, tier, workerCh, only)
+		for k, v := range faultCov {
+			rep.Coverage[k] = v
+		}
+		runs += faultCov["fault_cases"]
+		transitions += faultCov["fault_transitions"]
+	}
+
 	var states int64
 	for _, n := range perFamily {
 		states += n
@@ -851,7 +866,7 @@ func main() {
 	rep.Coverage["violating_cases"] = violCount
 	rep.Coverage["states_per_family"] = perFamily
 	rep.Coverage["exhaustive"] = only == nil
-	rep.Coverage["rule"] = "cases = every message of msggen.BodySpace ∪ HeaderSpace x every logger variant x every read mode (+ one skip-logging run per skipping variant, + one snapshot re-parse per messageview variant); states = distinct (message, logger variant) pairs; a message is non-trivial when its body is non-empty and it is chunked, close-delimited or content-coded (the paths where a logger can re-frame or mis-decode)"
+	rep.Coverage["rule"] = "cases = every message of msggen.BodySpace ∪ HeaderSpace x every logger variant x every read mode (+ one skip-logging run per skipping variant, + one snapshot re-parse per messageview variant); states = distinct (message, logger variant) pairs; a message is non-trivial when its body is non-empty and it is chunked, close-delimited or content-coded (the paths where a logger can re-frame or mis-decode); failing-body family: every message of a sub-space (non-empty bodies x framings x {identity, gzip} x 3 content types) x fault kind {sender closes, connection error} x cut offsets (every offset of a body region of at most 96 bytes, else ±1 around each structural boundary) x 3 read modes x every logger variant; oracle: pass-through variants identical to the unlogged twin, buffering variants still fail and write only a prefix of the body"
 	rep.Coverage["bounds"] = fmt.Sprintf("tier %s: body space = {request POST, response 200} x sizes %v x {Content-Length, close (responses), chunked x chunk lists %v x trailers 0..2 (coinciding chunk lists emitted once)} x content codings %v x content types requests %v / responses %v; header space = requests {GET,POST,PUT} x HTTP/1.1,1.0 x query pool x cookie pool x repeated/empty header pool x {CL 0, CL 5, chunked 0, chunked 5}, responses {200,201,301,302,404,204,304} x versions x Set-Cookie pool x header pool x Location pool x {CL, chunked, close} x sizes {0,5}, 204/304 with and without Content-Encoding: gzip; read-buffer sizes {1 (61 for bodies > 4200 bytes), 511, 4097, 65536, bytes.Buffer growth, bufio 4096}",
 		tier, sizesFor(tier), chunkingsFor(tier), msggen.Encodings, msggen.RequestCTs, msggen.ResponseCTs)
 	rep.Assumptions = []string{
